@@ -160,7 +160,8 @@ MANIFEST_TEXT = {
     "C02": {
         "text": "Every valid history of the stateful anchored types is executed under ASan+UBSan inside a guarded arena pre-filled with "
                 "seeded garbage, with exact-size heap argument buffers and an allocator that trips inside library calls; each plan is run "
-                "under two garbage patterns and the event logs must be identical (uninitialised reads). Exploration over sampled histories.",
+                "under two garbage patterns and the event logs must be identical (uninitialised reads). C-string / wide-string functions run as "
+                "histories over exact-size caller buffers between canaries. Exploration over sampled histories.",
         "note": "Only the history part of the property is decided; direct sweeps of pure call tuples (view searches, to_chars buffers, "
                 "algorithms) are reached only as far as the container histories call them. Intra-object overflow is visible only as a "
                 "state divergence.",
